@@ -37,6 +37,16 @@ def _safe_names():
 ATTR_NAMES = _safe_names()
 
 
+def _ec_names():
+    # attributes the entity-category profiles talk about, as far as the shipped URI map carries them unchanged
+    from saml2_tophat.attributemaps import saml_uri
+    to, fro = saml_uri.MAP["to"], saml_uri.MAP["fro"]
+    return [n for n in fed.EC_ATTR_POOL if n in to and fro.get(to[n]) == n]
+
+
+EC_NAMES = _ec_names()
+
+
 def _aliases():
     from saml2_tophat.attributemaps import saml_uri
     to = saml_uri.MAP["to"]
@@ -486,6 +496,20 @@ def gen_c08(seed, tier):
             asked_for = g.rl.sample(ATTR_NAMES, g.rl.pick([1, 2, 3, 4]))
             nreq = g.rl.pick([0, 0, 1])
             sps[-1]["req_attrs"], sps[-1]["opt_attrs"] = asked_for[:nreq], asked_for[nreq:]
+    ec_profiles = None
+    if g.rl.chance(0.25):
+        # a federation that releases by entity category: the IdPs' policy names category profiles, the SPs claim
+        # categories in their metadata (with the Code of Conduct profile they also mark attributes as required)
+        ec_profiles = g.rl.pick([["swamid"], ["swamid"], ["refeds"], ["edugain"], ["swamid", "edugain"], ["refeds", "edugain"]])
+        for s_ in sps:
+            s_["entity_category"] = g.rl.pick([
+                [], [fed.EC_RE], [fed.EC_RE, fed.EC_EU], [fed.EC_RE, fed.EC_HEI], [fed.EC_NREN], [fed.EC_HEI, fed.EC_SFS],
+                [fed.EC_RS], [fed.EC_COCO], [fed.EC_COCO, fed.EC_RE], [fed.EC_EU, fed.EC_NREN], [fed.EC_SFS],
+                [fed.EC_RE, fed.EC_NREN, fed.EC_RS]])
+            s_.pop("opt_attrs", None)
+            s_.pop("req_attrs", None)
+            if "edugain" in ec_profiles and g.rl.chance(0.7):
+                s_["req_attrs"] = g.rl.sample(EC_NAMES, g.rl.pick([1, 2, 3]))
     g.draw_skews(choices=(0, 0, 1, -1, 3, -3, 30))
     if g.rl.chance(0.3):
         # the whole federation uses its own attribute map directory (with one home-grown attribute)
@@ -501,6 +525,11 @@ def gen_c08(seed, tier):
         p["identity"] = g.identity(hostile=0.6)
         p["lifetime"] = r.pick([300, 900, 3600])
         p["sp_policy_section"] = r.chance(0.3)
+        if ec_profiles:
+            p["entity_categories"] = ec_profiles
+            p["sp_policy_section"] = False
+            p["identity"] = {nm: [g.value(0.4) for _ in range(r.pick([1, 1, 2]))]
+                             for nm in r.sample(EC_NAMES, r.pick([2, 4, 6, 9])) + r.sample(ATTR_NAMES, r.pick([0, 1, 2]))}
         p["authn_class"] = r.pick(AUTHN_CLASSES)
         fmt = r.pick(NAMEID_FORMATS)
         if r.chance(0.5):
@@ -853,6 +882,21 @@ def gen_c17(seed, tier):
             keys_ = r.pick([[fit], [fit, 21 - fit], [21 - fit, fit], [fit, 21 - fit]])
             g.login(sp, idp, p, resp_kw={"req_keys": keys_})
             continue
+        if r.chance(0.12):
+            # the attribute authority role: an attribute query over SOAP whose answer is to be encrypted, with every
+            # way of signing it
+            f = g.new_flow()
+            g.ev("mkreq", f=f, sp=sp["name"], idp=idp["name"], kind="attribute_query", rb="soap", sign=r.chance(0.5))
+            g.tick()
+            g.ev("req", f=f)
+            g.tick()
+            pa = {"identity": p["identity"], "sign_response": r.chance(0.5), "sign_assertion": r.chance(0.6),
+                  "encrypt": True, "self_contained": r.chance(0.5)}
+            g.ev("aq_answer", f=f, p=pa, sub=g.sub())
+            g.tick()
+            g.ev("resp", f=f, r=0, sub=g.sub())
+            g.tick()
+            continue
         variant = r.weighted([("plain", 6), ("advice", 1), ("pefim", 1), ("signed-advice", 1)]) if clean or r.chance(0.5) else "plain"
         if variant == "advice":
             p["advice"] = True
@@ -1076,7 +1120,8 @@ def gen_c10(seed, tier):
                  sign=bool(sign), no_dest=r.chance(0.25), **kw)
             g.tick()
             fk = "plain" if clean else r.pick(["plain", "stale", "other-sp", "other-endpoint", "truncate", "xml-attr",
-                                               "xml-sig", "dup", "tool"])
+                                               "xml-sig", "dup", "tool"]
+                                              + (["soap-wrap", "soap-wrap"] if sign and rb == "soap" else []))
             slack_sp = sp.get("slack") or 0
             if fk == "stale":
                 delta = r.pick([-2, -1, 0, 1, 2, 3600])
@@ -1093,6 +1138,9 @@ def gen_c10(seed, tier):
                 g.ev("req", f=f, via="slo_" + r.pick([b for b in ("soap", "post", "redirect") if b != rb]))
             elif fk == "truncate":
                 g.ev("req", f=f, mut={"k": "truncate", "frac": r.random()}, sub=g.sub())
+            elif fk == "soap-wrap":
+                g.ev("req", f=f, mut={"k": "xml", "where": "soap-wrap", "ids": r.pick(["other", "other", "same"]),
+                                      "sig": r.pick(["moved", "moved", "copied"]), "place": r.pick(["header", "header", "after-body"])}, sub=g.sub())
             elif fk in ("xml-attr", "xml-sig"):
                 g.ev("req", f=f, mut={"k": "xml", "where": "attr" if fk == "xml-attr" else r.pick(["sigvalue", "digest"]),
                                       "target": "response"}, sub=g.sub())
@@ -1117,7 +1165,8 @@ def gen_c10(seed, tier):
             g.tick()
             continue
         fk = r.pick(["plain", "stale", "future", "other-idp", "other-endpoint", "truncate", "b64char", "xml-attr",
-                     "xml-text", "xml-sig", "dup", "wrong-key", "stale-md", "missing-md", "tool", "required-attr"])
+                     "xml-text", "xml-sig", "dup", "wrong-key", "stale-md", "missing-md", "tool", "required-attr"]
+                    + (["soap-wrap", "soap-wrap"] if sign and rb == "soap" else []))
         ts = g.t - 1
         sp_now_at_start = int(math.floor(g.now_of(sp["name"], ts)))
         if fk == "plain":
@@ -1158,6 +1207,9 @@ def gen_c10(seed, tier):
             g.ev("req", f=f, mut={"k": "truncate", "frac": r.random()}, sub=g.sub())
         elif fk == "b64char":
             g.ev("req", f=f, mut={"k": "b64char"}, sub=g.sub())
+        elif fk == "soap-wrap":
+            g.ev("req", f=f, mut={"k": "xml", "where": "soap-wrap", "ids": r.pick(["other", "other", "same"]),
+                                  "sig": r.pick(["moved", "moved", "copied"]), "place": r.pick(["header", "header", "after-body"])}, sub=g.sub())
         elif fk == "required-attr":
             g.ev("req", f=f, mut={"k": "xml", "where": "required-attr", "target": "response",
                                   "attr": r.pick(["ID", "ID", "Version", "IssueInstant"]),
